@@ -105,6 +105,10 @@ def unmap(x):
     return x
 
 
+class OpaqueText(Sym):
+    """a string whose text is not modelled (log / error messages built from abstract strings)"""
+
+
 class SObj(Sym):
     """Instance of a class from the extracted source; fields is a plain dict name -> value."""
 
